@@ -1,35 +1,60 @@
 // Heap phase: operator new / new[] of the whole program (library included) replaced by a version that can place every
 // block of at least 256 bytes at a chosen residue modulo 32 (0 or 16; glibc and the C++ default guarantee 16 only), selected
-// per thread. Results must not depend on where the allocator happens to place temporaries, and code must not assume more
-// alignment than it asked for. Include in exactly one translation unit of a driver. Not compiled into the sanitizer builds
-// (they keep their own operator new with its red zones and mismatch checks).
+// per thread, or ("spread", phase 100) take successive blocks in turn from three regions of the address space that are
+// terabytes apart (malloc, and two private mappings). Results must not depend on where the allocator happens to place
+// objects and temporaries, and code must not assume more alignment or proximity than it asked for.
+// Include in exactly one translation unit of a driver. Not compiled into the sanitizer and valgrind builds (those tools bring
+// their own operator new with red zones and mismatch checks).
 #pragma once
 #include <cstdlib>
 #include <cstdint>
+#include <cstring>
 #include <new>
-#if !defined(__SANITIZE_ADDRESS__) && !defined(__SANITIZE_THREAD__)
+#include <atomic>
+#include <sys/mman.h>
+#if !defined(__SANITIZE_ADDRESS__) && !defined(__SANITIZE_THREAD__) && !defined(VH_NO_HEAP_PHASE)
 #define VH_HEAP_PHASE 1
-namespace vh { static thread_local int heap_phase = -1; static inline void set_heap_phase(int p) { heap_phase = p; } }   // -1: as malloc places it (+16)
+namespace vh { static thread_local int heap_phase = -1; static thread_local unsigned heap_turn = 0;
+               static inline void set_heap_phase(int p) { heap_phase = p; }   // -1: as malloc places it (+32); 0 / 16: residue mod 32; 100: spread
+               static std::atomic<uint64_t> heap_far_off[2]; static std::atomic<uint64_t> heap_far_blocks{0}; }
+struct VhBlockHdr { void *base; uint64_t maplen; };   // maplen 0: malloc'ed
 static inline void *vh_phase_alloc(size_t n) {
     int ph = vh::heap_phase;
-    char *base = (char *) malloc(n + 64);
+    if (ph == 100 && n >= 64) {
+        unsigned turn = vh::heap_turn++ % 3;
+        if (turn) {
+            uint64_t len = (n + 64 + 4095) & ~(uint64_t) 4095;
+            uint64_t off = vh::heap_far_off[turn - 1].fetch_add(len + 4096);
+            void *hint = (void *) ((turn == 1 ? 0x100000000000ull : 0x300000000000ull) + off);
+            void *m = mmap(hint, len, PROT_READ | PROT_WRITE, MAP_PRIVATE | MAP_ANONYMOUS, -1, 0);
+            if (m != MAP_FAILED) {
+                memset(m, 0xA5, len);                                        // never hand out zero pages: dirty like the perturbed malloc heap
+                char *p = (char *) m + 32 + ((off >> 12) & 1) * 16;      // both residues modulo 32
+                VhBlockHdr *h = (VhBlockHdr *) p - 1; h->base = m; h->maplen = len; vh::heap_far_blocks++;
+                return p;
+            }
+        }
+        ph = 0;
+    }
+    char *base = (char *) malloc(n + 80);
     if (!base) throw std::bad_alloc();
     char *p;
-    if (ph < 0 || n < 256) p = base + 16;
-    else p = (char *) ((((uintptr_t) base + 16 + 31) & ~(uintptr_t) 31) + (uintptr_t) ph);
-    ((void **) p)[-1] = base;
+    if (ph < 0 || n < 256) p = base + 32;
+    else p = (char *) ((((uintptr_t) base + 32 + 31) & ~(uintptr_t) 31) + (uintptr_t) ph);
+    VhBlockHdr *h = (VhBlockHdr *) p - 1; h->base = base; h->maplen = 0;
     return p;
 }
+static inline void vh_phase_free(void *p) { if (!p) return; VhBlockHdr *h = (VhBlockHdr *) p - 1; if (h->maplen) munmap(h->base, h->maplen); else free(h->base); }
 void *operator new(size_t n) { return vh_phase_alloc(n); }
 void *operator new[](size_t n) { return vh_phase_alloc(n); }
 void *operator new(size_t n, const std::nothrow_t &) noexcept { try { return vh_phase_alloc(n); } catch (...) { return nullptr; } }
 void *operator new[](size_t n, const std::nothrow_t &) noexcept { try { return vh_phase_alloc(n); } catch (...) { return nullptr; } }
-void operator delete(void *p) noexcept { if (p) free(((void **) p)[-1]); }
-void operator delete[](void *p) noexcept { if (p) free(((void **) p)[-1]); }
-void operator delete(void *p, size_t) noexcept { if (p) free(((void **) p)[-1]); }
-void operator delete[](void *p, size_t) noexcept { if (p) free(((void **) p)[-1]); }
-void operator delete(void *p, const std::nothrow_t &) noexcept { if (p) free(((void **) p)[-1]); }
-void operator delete[](void *p, const std::nothrow_t &) noexcept { if (p) free(((void **) p)[-1]); }
+void operator delete(void *p) noexcept { vh_phase_free(p); }
+void operator delete[](void *p) noexcept { vh_phase_free(p); }
+void operator delete(void *p, size_t) noexcept { vh_phase_free(p); }
+void operator delete[](void *p, size_t) noexcept { vh_phase_free(p); }
+void operator delete(void *p, const std::nothrow_t &) noexcept { vh_phase_free(p); }
+void operator delete[](void *p, const std::nothrow_t &) noexcept { vh_phase_free(p); }
 #else
 namespace vh { static inline void set_heap_phase(int) {} }
 #endif
